@@ -97,6 +97,7 @@ type Engine struct {
 	Inlined     []string
 	InlineNotes []string
 	Overlay     map[string][]byte // the source files as analysed, where they differ from the files on disk
+	implCache   map[*types.Interface][]types.Type
 	DeadHelpers []string
 }
 
@@ -131,6 +132,23 @@ func Load(dir string) (*Engine, error) {
 		}
 	} else {
 		sigNotes = nts
+	}
+	if ov, nts := dropConstParams(e.Pkgs, readSource(overlay)); len(ov) > 0 {
+		merged := map[string][]byte{}
+		for k, v := range overlay {
+			merged[k] = v
+		}
+		for k, v := range ov {
+			merged[k] = v
+		}
+		if e2, err2 := loadOverlay(dir, merged); err2 == nil {
+			e, overlay = e2, merged
+			sigNotes = append(sigNotes, nts...)
+		} else {
+			sigNotes = append(sigNotes, "constant-parameter removal abandoned: "+strings.SplitN(err2.Error(), "\n", 3)[0])
+		}
+	} else {
+		sigNotes = append(sigNotes, nts...)
 	}
 	if ov, nts := synthFlagSplit(e.Pkgs, readSource(overlay)); len(ov) > 0 {
 		merged := map[string][]byte{}
@@ -229,11 +247,17 @@ func (e *Engine) hideDeadHelpers() {
 			}
 		}
 	}
+	wasInlined := map[string]bool{}
+	for _, k := range e.Inlined {
+		wasInlined[k] = true
+	}
 	var keep []*ssa.Function
 	for _, fn := range e.SrcFuncs {
 		top := topFunc(fn)
 		k := FuncKey(top)
-		if smPkgs[top.Pkg.Pkg.Path()] && !baselineFuncs[k] && !called[top] && top.Object() != nil && !top.Object().Exported() && top.Name() != "init" {
+		// (an exported new function is hidden only if it was inlined at its call sites: without callers in the module
+		// it may still be an entry point for other code, and stays visible to the who-may tables)
+		if smPkgs[top.Pkg.Pkg.Path()] && !baselineFuncs[k] && !called[top] && top.Object() != nil && (!top.Object().Exported() || wasInlined[k]) && top.Name() != "init" {
 			e.DeadHelpers = append(e.DeadHelpers, FuncKey(fn))
 			delete(e.fnByKey, FuncKey(fn))
 			continue
@@ -435,8 +459,102 @@ func typeKey(t types.Type) string {
 //	invoke   "types.BankKeeper.MintCoins" (interface named type + method)
 //	builtin  "builtin.append"
 //	dynamic  "dyn" (call of a function value)
+//
+// Devirt resolves the callee of a call: the static callee, or for an interface method call the one module method it
+// can reach when that is certain - the interface value was made from a concrete type just before (a helper that
+// takes an interface was inlined), or the interface is a NEW unexported interface of the module (not in the reviewed
+// tree) that exactly one named type of the module implements (a dependency hidden behind an interface).  Calls
+// through reviewed interfaces (BankKeeper, StakingKeeper, ..) stay what they are: the rules name them.
+func Devirt(c *ssa.CallCommon) *ssa.Function {
+	if f := c.StaticCallee(); f != nil {
+		return f
+	}
+	if !c.IsInvoke() || curEngine == nil || curEngine.Prog == nil {
+		return nil
+	}
+	prog := curEngine.Prog
+	lookup := func(t types.Type) *ssa.Function {
+		ms := prog.MethodSets.MethodSet(t)
+		if sel := ms.Lookup(c.Method.Pkg(), c.Method.Name()); sel != nil {
+			return prog.MethodValue(sel)
+		}
+		return nil
+	}
+	if mi, ok := c.Value.(*ssa.MakeInterface); ok {
+		if f := lookup(mi.X.Type()); f != nil {
+			return f
+		}
+	}
+	named, ok := c.Value.Type().(*types.Named)
+	if !ok || named.Obj().Pkg() == nil || !smPkgs[named.Obj().Pkg().Path()] || named.Obj().Exported() {
+		return nil
+	}
+	if baselineTypes[alias(named.Obj().Pkg().Path())+"."+named.Obj().Name()] {
+		return nil
+	}
+	iface, ok := named.Underlying().(*types.Interface)
+	if !ok {
+		return nil
+	}
+	// among the implementers, those that declare the method themselves (types that merely embed such a type promote
+	// the same method)
+	var direct []types.Type
+	for _, t := range curEngine.implementers(iface) {
+		ms := prog.MethodSets.MethodSet(t)
+		sel := ms.Lookup(c.Method.Pkg(), c.Method.Name())
+		if sel == nil {
+			return nil
+		}
+		if len(sel.Index()) == 1 {
+			direct = append(direct, t)
+		}
+	}
+	if len(direct) != 1 {
+		return nil
+	}
+	return lookup(direct[0])
+}
+
+// implementers: the named types of the module's packages (value or pointer form) that implement iface.
+func (e *Engine) implementers(iface *types.Interface) []types.Type {
+	if e.implCache == nil {
+		e.implCache = map[*types.Interface][]types.Type{}
+	}
+	if r, ok := e.implCache[iface]; ok {
+		return r
+	}
+	var out []types.Type
+	for _, p := range e.Pkgs {
+		if p.Types == nil || !strings.HasPrefix(p.PkgPath, modPath) {
+			continue
+		}
+		sc := p.Types.Scope()
+		for _, n := range sc.Names() {
+			tn, ok := sc.Lookup(n).(*types.TypeName)
+			if !ok || tn.IsAlias() {
+				continue
+			}
+			t := tn.Type()
+			if _, isIface := t.Underlying().(*types.Interface); isIface {
+				continue
+			}
+			switch {
+			case types.Implements(t, iface):
+				out = append(out, t)
+			case types.Implements(types.NewPointer(t), iface):
+				out = append(out, types.NewPointer(t))
+			}
+		}
+	}
+	e.implCache[iface] = out
+	return out
+}
+
 func CalleeKey(c *ssa.CallCommon) string {
 	if c.IsInvoke() {
+		if f := Devirt(c); f != nil {
+			return FuncKey(f)
+		}
 		return typeKey(c.Value.Type()) + "." + c.Method.Name()
 	}
 	if f := c.StaticCallee(); f != nil {
